@@ -16,6 +16,7 @@ import PdfModel.Props.C11
 import PdfModel.Props.C14
 import PdfModel.Props.C17
 import PdfModel.Props.C19
+import PdfModel.Generated.Lexical
 
 /-!
 # C01 — reading arbitrary bytes never panics, aborts or hangs
@@ -699,5 +700,30 @@ def xrefStmSample : Buf :=
 example : (match XrefTable.readXrefAt textEnv (fun _ => .ok ⟨[1, 1, 1], [0, 2]⟩) (fun _ _ => .ok [0, 0, 255, 1, 16, 0]) false
       xrefStmSample 0 with
     | .ok (secs, _) => secs | _ => []) = [⟨0, [.free 0 255, .raw 16 0]⟩] := by decide +kernel
+
+end C01
+
+/-! ## Tie to the source: constants and byte classes (appended by the translator package)
+
+`Generated/Lexical.lean` is re-extracted from `pdf/src` by `./check` before this file is built. -/
+
+namespace C01
+
+/-- the lexical classes of the lexer model, the parser's nesting bound, the object-number bound and the bound on nested typed loads are the ones of the source (`is_whitespace`, `is_delimiter`, `MAX_DEPTH`, `MAX_ID`, `MAX_NESTED_GETS`) -/
+theorem constants_match_source :
+    ((List.range 256).filter (fun n => PdfLex.isWhitespace (UInt8.ofNat n)) = Generated.lexWhitespace) ∧
+    ((List.range 256).filter (fun n => PdfLex.isDelimiter (UInt8.ofNat n)) = Generated.lexDelimiters) ∧
+    ((List.range 256).filter (fun n => PdfLex.isRegular (UInt8.ofNat n)) =
+      (List.range 256).filter (fun n => !Generated.lexWhitespace.contains n && !Generated.lexDelimiters.contains n)) ∧
+    (PdfLex.maxDepth = Generated.parserMaxDepth) ∧
+    (Offsets.maxId = Generated.maxId) ∧
+    (TypedLoad.maxNest = Generated.maxNestedGets) := by
+  refine ⟨?_, ?_, ?_, ?_, ?_, ?_⟩
+  · first | decide +kernel | fail "constants_match_source (C01): the model's PdfLex.isWhitespace does not match the source (Generated.lexWhitespace, re-extracted from pdf/src)"
+  · first | decide +kernel | fail "constants_match_source (C01): the model's PdfLex.isDelimiter does not match the source (Generated.lexDelimiters, re-extracted from pdf/src)"
+  · first | decide +kernel | fail "constants_match_source (C01): the model's PdfLex.isRegular does not match the source (Generated.lexDelimiters, Generated.lexWhitespace, re-extracted from pdf/src)"
+  · first | decide +kernel | fail "constants_match_source (C01): the model's PdfLex.maxDepth does not match the source (Generated.parserMaxDepth, re-extracted from pdf/src)"
+  · first | decide +kernel | fail "constants_match_source (C01): the model's Offsets.maxId does not match the source (Generated.maxId, re-extracted from pdf/src)"
+  · first | decide +kernel | fail "constants_match_source (C01): the model's TypedLoad.maxNest does not match the source (Generated.maxNestedGets, re-extracted from pdf/src)"
 
 end C01
